@@ -32,6 +32,41 @@ CIRCUIT = "tangelo/linq/circuit.py"
 POST = "tangelo/toolboxes/post_processing/post_selection.py"
 
 
+def check_per_shot_products(idx: Index, rep: Report):
+    """The probability recorded for an outcome is the product of the branch probabilities met in ONE run through the circuit.  In every loop of the simulate
+    functions, a name that is multiplied up inside the loop (`v *= p`) and whose value is recorded inside the same loop (stored into a container or an
+    attribute) is set afresh inside that loop: a product that starts before the loop carries the previous shot's factors into this shot's record."""
+    rule = "K8.per-shot-product"
+    n = 0
+    for rel in (TCIRQ, BACKEND):
+        m = idx.module_by_relpath(rel)
+        for f in m.functions.values():
+            for loop in own_nodes(f.node):
+                if not isinstance(loop, (ast.For, ast.While)):
+                    continue
+                body = ast.Module(body=loop.body, type_ignores=[])
+                prods = {}
+                for x in ast.walk(body):
+                    if isinstance(x, ast.AugAssign) and isinstance(x.op, ast.Mult) and isinstance(x.target, ast.Name):
+                        prods.setdefault(x.target.id, x)
+                for v, aug in prods.items():
+                    recorded = [x for x in ast.walk(body) if isinstance(x, ast.Assign) and any(isinstance(t, (ast.Subscript, ast.Attribute)) for t in x.targets)
+                                and any(isinstance(y, ast.Name) and y.id == v for y in ast.walk(x.value))]
+                    if not recorded:
+                        continue
+                    # the innermost loop that contains both the product and the record is the one that has to reset it
+                    inner = [l2 for l2 in ast.walk(body) if isinstance(l2, (ast.For, ast.While)) and any(z is aug for z in ast.walk(l2)) and any(z is recorded[0] for z in ast.walk(l2))]
+                    if inner:
+                        continue
+                    reset = [x for x in ast.walk(body) if isinstance(x, ast.Assign) and any(isinstance(t, ast.Name) and t.id == v for t in x.targets)]
+                    n += 1
+                    rep.decide(bool(reset), rule, f, aug, text=f"{f.qualname}: `{v}` multiplied up and recorded ({norm(recorded[0])[:50]}) in the loop at line {loop.lineno}",
+                               what="a probability multiplied up and recorded inside a loop over shots starts from its initial value in every iteration",
+                               reason=f"`{v}` is not assigned inside the loop: the factors of the previous iterations stay in the product, so the probability recorded for an "
+                                      f"outcome after k shots is the product over k shots (recorded probabilities no longer sum to one)")
+    rep.floor("probabilities multiplied up and recorded inside a loop", n, 1)
+
+
 def run(idx: Index, rep: Report, tier: str):
     rep.explain("C10 thin structural part: argument forwarding on the mid-circuit path, dataflow of branch probabilities into the stored "
                 "success probability, symbolic shape/slice/probability obligations of the collapse routine, sibling agreement of the "
@@ -46,6 +81,7 @@ def run(idx: Index, rep: Report, tier: str):
     check_frequency_split(idx, rep)
     check_cirq_record_assembly(idx, rep)
     check_collapse_numeric(idx, rep)
+    check_per_shot_products(idx, rep)
     from .C01 import check_cirq_initial_state
     check_cirq_initial_state(idx, rep)          # the unconditioned distribution and its branches start from the same supplied state on every cirq path
 
